@@ -22,6 +22,8 @@ def run(rep):
     rep.guard(s6, rep, w)
     import c08
     rep.guard(c08.x9, rep, w)    # a global name is looked up in the module of the running frame: the cached module follows every frame change
+    import c04_narrow
+    rep.guard(c04_narrow.b4, rep, w)    # an upvalue index that does not fit its operand byte aliases another captured variable
 
 
 def s1(rep, w):
